@@ -154,8 +154,8 @@ class C18(Prop):
     pid = "C18"
     theorems = ["C18_known_kept", "C18_refines_level_rule", "C18_leader_is_ancestor_or_self",
                 "C18_rule_stays_iff_frequent", "C18_rule_bottom_value", "C18_rare_group_merged_further_up",
-                "C18_unknown_raise", "C18_unknown_drop", "C18_transform_is_lookup", "C18_transform_is_leader",
-                "C18_checker_ancestor_sound"]
+                "C18_unknown_raise", "C18_unknown_drop", "C18_transform_is_lookup",
+                "C18_transform_is_leader", "C18_checker_ancestor_sound"]
     rule = ("random forests given bottom-up as 2-4 chained_orders dicts with uneven fan-out (1-5), "
             "group leaders listed or not in their own group, never-observed leaves, observed group "
             "labels, roots left ungrouped; training column of 30-400 rows with counts placed exactly "
